@@ -134,7 +134,10 @@ impl IndexMapSubsetPlan {
             .map(DeltaSetIndexMap::entry_format)
             .unwrap_or(EntryFormat::from_bits_truncate(1));
 
-        this.outer_bit_count = (entry_format.entry_size() * 8) - entry_format.bit_count();
+        // an entry can be narrower than its inner bit count (e.g. 1 byte entries with 16 inner
+        // bits): all of its bits are inner bits then
+        this.outer_bit_count =
+            (entry_format.entry_size() * 8).saturating_sub(entry_format.bit_count());
         this.max_inners.resize(inner_sets.len(), 0);
 
         let mut last_gid = None;
@@ -766,6 +769,56 @@ mod test {
                         hvar.lsb_delta(GlyphId::from(old_gid), &coords).unwrap()
                     );
                 }
+            }
+        }
+    }
+
+    // advance mapping with 1-byte entries and an inner bit count of 16 (entry format 0x0f):
+    // the entry is narrower than its inner bit count, there are no outer bits
+    #[test]
+    fn test_subset_hvar_entry_narrower_than_inner_bit_count() {
+        use write_fonts::types::F2Dot14;
+        let raw_bytes: [u8; 82] = [
+            0x00, 0x01, 0x00, 0x00, 0x00, 0x00, 0x00, 0x14, 0x00, 0x00, 0x00, 0x4a, 0x00, 0x00,
+            0x00, 0x00, 0x00, 0x00, 0x00, 0x00, 0x00, 0x01, 0x00, 0x00, 0x00, 0x26, 0x00, 0x01,
+            0x00, 0x00, 0x00, 0x0c, 0x00, 0x08, 0x00, 0x00, 0x00, 0x02, 0x00, 0x00, 0x00, 0x01,
+            0x01, 0xff, 0x0b, 0xfe, 0x15, 0xfd, 0x1f, 0xfc, 0x29, 0xfb, 0x33, 0xfa, 0x3d, 0xf9,
+            0x47, 0xf8, 0x00, 0x01, 0x00, 0x02, 0x00, 0x00, 0x40, 0x00, 0x40, 0x00, 0xc0, 0x00,
+            0xc0, 0x00, 0x00, 0x00, 0x00, 0x0f, 0x00, 0x04, 0x07, 0x02, 0x02, 0x05,
+        ];
+
+        let hvar = Hvar::read(FontData::new(&raw_bytes)).unwrap();
+        let mut builder = FontBuilder::new();
+        //dummy font
+        let font = FontRef::new(&raw_bytes).unwrap();
+
+        let mut plan = Plan::default();
+        let kept: [(u32, u32); 3] = [(0, 0), (1, 2), (2, 3)];
+        for (new_gid, old_gid) in kept {
+            plan.new_to_old_gid_list
+                .push((GlyphId::from(new_gid), GlyphId::from(old_gid)));
+            plan.glyphset.insert(GlyphId::from(old_gid));
+        }
+
+        let mut s = Serializer::new(1024);
+        assert_eq!(s.start_serialize(), Ok(()));
+        let ret = hvar.subset(&plan, &font, &mut s, &mut builder);
+        assert!(ret.is_ok());
+        assert!(!s.in_error());
+        s.end_serialize();
+
+        let subsetted_data = s.copy_bytes();
+        let subset_hvar = Hvar::read(FontData::new(&subsetted_data)).unwrap();
+        for coord in [-1.0, 0.25, 1.0] {
+            let coords = [F2Dot14::from_f32(coord)];
+            for (new_gid, old_gid) in kept {
+                assert_eq!(
+                    subset_hvar
+                        .advance_width_delta(GlyphId::from(new_gid), &coords)
+                        .unwrap(),
+                    hvar.advance_width_delta(GlyphId::from(old_gid), &coords)
+                        .unwrap()
+                );
             }
         }
     }
